@@ -28,15 +28,16 @@ Definition log_op (e : exec) (me : nat) (r : result) : exec :=
   | None => e
   end.
 
-Definition hobj_default : hobj := mkHobj 0%N [] false [] false false.
+Definition hobj_default : hobj := mkHobj 0%N [] false [] false false None.
 Definition get_h (e : exec) (i : nat) : hobj := nth i (e_h e) hobj_default.
 
-Definition ho_set_cell (h : hobj) (v : N) := mkHobj v (ho_q h) (ho_rx h) (ho_slots h) (ho_track h) (ho_waiting h).
-Definition ho_set_q (h : hobj) (q : list N) := mkHobj (ho_cell h) q (ho_rx h) (ho_slots h) (ho_track h) (ho_waiting h).
-Definition ho_set_rx (h : hobj) (b : bool) := mkHobj (ho_cell h) (ho_q h) b (ho_slots h) (ho_track h) (ho_waiting h).
-Definition ho_set_slots (h : hobj) (s : list bool) := mkHobj (ho_cell h) (ho_q h) (ho_rx h) s (ho_track h) (ho_waiting h).
-Definition ho_set_track (h : hobj) (b : bool) := mkHobj (ho_cell h) (ho_q h) (ho_rx h) (ho_slots h) b (ho_waiting h).
-Definition ho_set_waiting (h : hobj) (b : bool) := mkHobj (ho_cell h) (ho_q h) (ho_rx h) (ho_slots h) (ho_track h) b.
+Definition ho_set_cell (h : hobj) (v : N) := mkHobj v (ho_q h) (ho_rx h) (ho_slots h) (ho_track h) (ho_waiting h) (ho_waker h).
+Definition ho_set_q (h : hobj) (q : list N) := mkHobj (ho_cell h) q (ho_rx h) (ho_slots h) (ho_track h) (ho_waiting h) (ho_waker h).
+Definition ho_set_rx (h : hobj) (b : bool) := mkHobj (ho_cell h) (ho_q h) b (ho_slots h) (ho_track h) (ho_waiting h) (ho_waker h).
+Definition ho_set_slots (h : hobj) (s : list bool) := mkHobj (ho_cell h) (ho_q h) (ho_rx h) s (ho_track h) (ho_waiting h) (ho_waker h).
+Definition ho_set_track (h : hobj) (b : bool) := mkHobj (ho_cell h) (ho_q h) (ho_rx h) (ho_slots h) b (ho_waiting h) (ho_waker h).
+Definition ho_set_waiting (h : hobj) (b : bool) := mkHobj (ho_cell h) (ho_q h) (ho_rx h) (ho_slots h) (ho_track h) b (ho_waker h).
+Definition ho_set_waker (h : hobj) (w : option (nat * nat)) := mkHobj (ho_cell h) (ho_q h) (ho_rx h) (ho_slots h) (ho_track h) (ho_waiting h) w.
 
 (* threads other than [me] whose pending operation is on object [obj] *)
 Definition pending_on (obj : nat) (t : thread) : bool :=
@@ -270,6 +271,31 @@ Definition choose_store (e : exec) (seed : option (list nat)) : exec * (nat + pa
       | POk (p', idx) => (ex_set_path e p', inl idx)
       | PErr x => (e, inr (PanicPath x))
       end
+  end.
+
+(* Atomic::load after its branch point, shared by the plain load and by the
+   polls of block_on: returns the new state and the value read *)
+Definition load_post (e : exec) (me a : nat) (o : ord) : (exec * N) + (exec * panic) :=
+  let e := causality_inc e me in
+  match get_atomic e a, get_thread e me with
+  | Some s, Some t =>
+      let seed := match_load_to_stores s me (t_caus t) (t_last_yield t) o in
+      match choose_store e seed with
+      | (e, inr p) => inr (e, p)
+      | (e, inl idx) =>
+          match atomic_load s me (t_caus t) idx o with
+          | inr p => inr (e, p)
+          | inl (s', caus', v) =>
+              inl (set_caus (upd_object e a (fun _ => OAtomic s')) me caus', v)
+          end
+      end
+  | _, _ => inr (e, PanicModel 16)
+  end.
+
+Definition log_poll (e : exec) (me : nat) : exec :=
+  match get_thread e me with
+  | Some t => ex_set_log e (LPoll (t_body t) (t_pc t) :: e_log e)
+  | None => e
   end.
 
 Definition exec_micro (e : exec) (me : nat) (m : micro) : mres :=
@@ -752,6 +778,91 @@ Definition exec_micro (e : exec) (me : nat) (m : micro) : mres :=
           | (GWrite, r) :: _ => mbind (release_write (drop_guard e me GWrite r) me r) (fun e => MOk (push_cont e me [MReleaseAll]))
           end
       end
+
+  | MBlockOn a v w =>
+      (* future::block_on: Arc::new(rt::Notify::new(false, true)) -- the Notify first, then the Arc *)
+      let n := length (e_objects e) in
+      let k := S n in
+      let e := ex_set_objects e (e_objects e ++
+                 [ONotify (mkNotify true false false false None vv_new);
+                  OArc (mkArc 1 vv_new (repeat None MAX_THREADS) None (repeat None MAX_THREADS))]) in
+      MOk (push_cont e me [MBoPoll a v w n k])
+
+  | MBoPoll a v w n k =>
+      MOk (push_cont (log_poll e me) me [MBranch a ALoad BNever; MBoLoad a v w n k true])
+
+  | MBoLoad a v w n k first =>
+      match load_post e me a Acquire with
+      | inr (e, p) => MFail e p
+      | inl (e, x) =>
+          if N.eqb x v then MOk (push_cont e me [MBoDone n k])
+          else if first then
+            (* AtomicWaker::register_by_ref(cx.waker()): clone the waker, then register *)
+            MOk (push_cont e me [MBranch k ARefInc BNever; MArcIncRaw k;
+                                 MBranch w AOpaqueTry BNever; MBoRegister a v w n k])
+          else
+            (* Pending: wait for a wake-up (or the one spurious return), then poll again *)
+            MOk (push_cont e me [MNotifyWait1 n; MBoPoll a v w n k])
+      end
+
+  | MBoRegister a v w n k =>
+      let '(e, ok) := post_acquire e me w in
+      let again := [MBranch a ALoad BNever; MBoLoad a v w n k false] in
+      if ok then
+        let old := ho_waker (get_h e w) in
+        let e := upd_hobj e w (fun h => ho_set_waker h (Some (n, k))) in
+        match old with
+        | Some (_, k') =>
+            (* the previously stored waker is dropped while the lock is held *)
+            MOk (push_cont e me ([MBranch k' ARefDec BNever; MArcDecRaw k'; MWakerRelease w] ++ again))
+        | None => MOk (push_cont e me (MWakerRelease w :: again))
+        end
+      else
+        (* contention: wake ourselves (consumes the clone) and yield *)
+        MOk (push_cont e me ([MBranch n AOpaque BNever; MNotifyPost n;
+                              MBranch k ARefDec BNever; MArcDecRaw k; MYield] ++ again))
+
+  | MBoDone n k =>
+      (* the future is ready: block_on returns, its Arc<Notify> handle is dropped *)
+      MOk (push_cont e me [MBranch k ARefDec BNever; MArcDecRaw k; MLog RUnit])
+
+  | MArcIncRaw k =>
+      match get_arc e k with
+      | None => MFail e (PanicModel 22)
+      | Some s => MOk (upd_object e k (fun _ => OArc (arc_set s (S (arc_cnt s)) (arc_sync s))))
+      end
+
+  | MArcDecRaw k =>
+      match get_arc e k with
+      | None => MFail e (PanicModel 22)
+      | Some s =>
+          match arc_cnt s with
+          | 0 => MFail e PanicArcReleased
+          | S cnt =>
+              let sy := sync_store (arc_sync s) (caus_of e me) (rel_of e me) Release in
+              let e := upd_object e k (fun _ => OArc (arc_set s cnt sy)) in
+              MOk (if Nat.eqb cnt 0 then set_caus e me (sync_load (caus_of e me) sy Acquire) else e)
+          end
+      end
+
+  | MWakerRelease w => MOk (release_lock e me w)
+
+  | MWakeTake w wake =>
+      (* AtomicWaker::take_waker after its (blocking) branch point, then wake or drop the waker *)
+      let '(e, ok) := post_acquire e me w in
+      if negb ok then MFail e PanicExpectLock
+      else
+        let old := ho_waker (get_h e w) in
+        let e := upd_hobj e w (fun h => ho_set_waker h None) in
+        let e := release_lock e me w in
+        match old with
+        | None => MOk (log_op e me (if wake then RUnit else RVal 0))
+        | Some (n, k) =>
+            if wake
+            then MOk (push_cont e me [MBranch n AOpaque BNever; MNotifyPost n;
+                                      MBranch k ARefDec BNever; MArcDecRaw k; MLog RUnit])
+            else MOk (push_cont e me [MBranch k ARefDec BNever; MArcDecRaw k; MLog (RVal 1)])
+        end
 
   | MTlsWith k =>
       (* LocalKey::try_with: initialise on first use by this thread; no rt effect *)
